@@ -278,6 +278,7 @@ static cfg_opt_t *cfg_getopt_secidx(cfg_t *cfg, const char *name,
 		long int i = -1;
 		char *secname;
 		size_t len;
+		cfg_t *parent = sec;
 
 		len = strcspn(name, "|=");
 		if (!index && name[len] == 0 /*len == strlen(name) */ )
@@ -325,7 +326,10 @@ static cfg_opt_t *cfg_getopt_secidx(cfg_t *cfg, const char *name,
 
 		/* compare as long: the accessor's index is an unsigned int */
 		sec = (i >= 0 && (unsigned long)i < cfg_opt_size(opt)) ? cfg_opt_getnsec(opt, (unsigned int)i) : NULL;
-		if (!sec && !is_set(CFGF_IGNORE_UNKNOWN, cfg->flags)) {
+		/* a free-form section that is asked itself for an option takes any
+		 * name as a key, also one that looks like a path */
+		if (!sec && !is_set(CFGF_IGNORE_UNKNOWN, cfg->flags) &&
+		    !(!index && parent == cfg && is_set(CFGF_KEYSTRVAL, cfg->flags))) {
 			if (opt && !is_set(CFGF_MULTI, opt->flags))
 				cfg_error(cfg, _("no such option '%s'"), secname);
 			else if (title)
